@@ -31,6 +31,11 @@ STATES = {
     'Sta6r': ('requestor', ['u:assoc', 'p:ac']),
     'Sta7': ('requestor', ['u:assoc', 'p:ac', 'u:relrq']),
     'Sta8': ('acceptor', ['p:rq', 'u:ac', 'p:relrq']),
+    # release collision (both sides asked for release at once): four more "releasing" states
+    'Sta9': ('requestor', ['u:assoc', 'p:ac', 'u:relrq', 'p:relrq']),
+    'Sta10': ('acceptor', ['p:rq', 'u:ac', 'u:relrq', 'p:relrq']),
+    'Sta11': ('requestor', ['u:assoc', 'p:ac', 'u:relrq', 'p:relrq', 'u:relrp']),
+    'Sta12': ('acceptor', ['p:rq', 'u:ac', 'u:relrq', 'p:relrq', 'p:relrp']),
     'Sta13': ('acceptor', ['p:rq', 'u:ac', 'p:relrq', 'u:relrp']),
     'Sta13b': ('acceptor', ['p:rq', 'u:ac', 'u:abort']),
 }
@@ -42,6 +47,10 @@ BASES_FOR = {
     'Sta6r': ['echo', 'store', 'relrq', 'abort', 'rj'],
     'Sta7': ['echo', 'store-first', 'relrp', 'relrq', 'abort'],
     'Sta8': ['echo', 'relrq', 'abort'],
+    'Sta9': ['echo', 'relrp', 'abort', 'rq'],
+    'Sta10': ['echo', 'relrp', 'abort', 'rq'],
+    'Sta11': ['echo', 'relrp', 'abort', 'rq'],
+    'Sta12': ['echo', 'relrq', 'abort', 'rq'],
     'Sta13': ['rq', 'echo', 'abort', 'relrp'],
     'Sta13b': ['rq', 'echo', 'abort'],
 }
